@@ -1021,11 +1021,16 @@ def _without_early_returns(stmts: typing.List[ast.stmt]) -> typing.Optional[typi
 
 
 def inline_procedures(func_node: ast.FunctionDef, callees: typing.Dict[str, ast.FunctionDef], suffix: str = "__inl",
-                      methods: typing.Optional[typing.Dict[str, ast.FunctionDef]] = None) -> ast.FunctionDef:
+                      methods: typing.Optional[typing.Dict[str, ast.FunctionDef]] = None, values: bool = False) -> ast.FunctionDef:
     """Statements `helper(a, b)` that call a private module-level procedure (no value returned, no generator, parameters never
     re-bound) are replaced by the procedure's body, parameters spelled as the argument expressions and the procedure's locals renamed
-    apart - the code the call abbreviates.  Returns a deep copy; anything that does not fit stays a call."""
+    apart - the code the call abbreviates.  With `values`, `return helper(..)` / `x = helper(..)` of a helper whose only return is its
+    last statement is spelled out the same way, the returned expression taking the place of the call.
+    Returns a deep copy; anything that does not fit stays a call."""
     fn = copy.deepcopy(func_node)
+
+    def _stmts(h: ast.FunctionDef) -> typing.List[ast.stmt]:
+        return [st for st in h.body if not (isinstance(st, ast.Expr) and isinstance(st.value, ast.Constant))]
 
     def hparams(h: ast.FunctionDef, call: ast.Call) -> typing.List[ast.arg]:
         ps = list(h.args.args)
@@ -1033,21 +1038,26 @@ def inline_procedures(func_node: ast.FunctionDef, callees: typing.Dict[str, ast.
             ps = ps[1:]          # self / cls is the receiver
         return ps
 
-    def fits(h: ast.FunctionDef, call: ast.Call) -> bool:
+    def fits(h: ast.FunctionDef, call: ast.Call, as_value: bool = False) -> bool:
         a = h.args
+        last = _stmts(h)[-1] if _stmts(h) else None
+        if as_value and not (isinstance(last, ast.Return) and last.value is not None):
+            return False
         if a.vararg or a.kwarg or a.kwonlyargs or a.posonlyargs or call.keywords or len(call.args) != len(hparams(h, call)) or any(isinstance(x, ast.Starred) for x in call.args):
             return False
         params = {x.arg for x in a.args}
         for n in ast.walk(h):
             if isinstance(n, (ast.Yield, ast.YieldFrom, ast.FunctionDef, ast.AsyncFunctionDef, ast.Lambda, ast.ClassDef, ast.Global, ast.Nonlocal)) and n is not h:
                 return False
-            if isinstance(n, ast.Return) and n.value is not None:
+            if isinstance(n, ast.Return) and n.value is not None and not (as_value and n is last):
+                return False
+            if isinstance(n, ast.Return) and as_value and n is not last:
                 return False
             if isinstance(n, ast.Name) and isinstance(n.ctx, (ast.Store, ast.Del)) and n.id in params:
                 return False
-        return _without_early_returns([st for st in h.body if not (isinstance(st, ast.Expr) and isinstance(st.value, ast.Constant))]) is not None
+        return _without_early_returns(_stmts(h)[:-1] if as_value else _stmts(h)) is not None
 
-    def expand(h: ast.FunctionDef, call: ast.Call) -> typing.List[ast.stmt]:
+    def expand(h: ast.FunctionDef, call: ast.Call, as_value: bool = False):
         env = {p_.arg: a_ for p_, a_ in zip(hparams(h, call), call.args)}
         if isinstance(call.func, ast.Attribute) and len(hparams(h, call)) < len(h.args.args):
             env[h.args.args[0].arg] = call.func.value      # the receiver stands for self / cls
@@ -1061,8 +1071,13 @@ def inline_procedures(func_node: ast.FunctionDef, callees: typing.Dict[str, ast.
                     return ast.copy_location(ast.Name(id=node.id + suffix, ctx=node.ctx), node)
                 return node
 
-        body = _without_early_returns([st for st in copy.deepcopy(h).body if not (isinstance(st, ast.Expr) and isinstance(st.value, ast.Constant))]) or []
-        out = [R().visit(st) for st in body] or [ast.Pass()]
+        hb = _stmts(copy.deepcopy(h))
+        value = None
+        if as_value:
+            value = R().visit(hb[-1].value)
+            hb = hb[:-1]
+        body = _without_early_returns(hb) or []
+        out = [R().visit(st) for st in body] or ([] if as_value else [ast.Pass()])
         for st in out:
             ast.fix_missing_locations(ast.copy_location(st, call) if not hasattr(st, "lineno") else st)
         for st in out:
@@ -1070,6 +1085,8 @@ def inline_procedures(func_node: ast.FunctionDef, callees: typing.Dict[str, ast.
                 if hasattr(n, "lineno"):
                     n.lineno = call.lineno
                     n.end_lineno = call.lineno
+        if as_value:
+            return out, ast.copy_location(value, call)
         return out
 
     def block(stmts: typing.List[ast.stmt], depth: int) -> typing.List[ast.stmt]:
@@ -1081,13 +1098,21 @@ def inline_procedures(func_node: ast.FunctionDef, callees: typing.Dict[str, ast.
             for hd in getattr(st, "handlers", []) or []:
                 hd.body = block(hd.body, depth)
             c = st.value if isinstance(st, ast.Expr) else None
+            as_value = False
+            if values and c is None and isinstance(st, (ast.Return, ast.Assign)) and isinstance(st.value, ast.Call) \
+                    and (isinstance(st, ast.Return) or (len(st.targets) == 1 and isinstance(st.targets[0], ast.Name))):
+                c, as_value = st.value, True
             h = None
             if isinstance(c, ast.Call) and isinstance(c.func, ast.Name) and c.func.id in callees and c.func.id.startswith("_"):
                 h = callees[c.func.id]
             elif isinstance(c, ast.Call) and methods and isinstance(c.func, ast.Attribute) and isinstance(c.func.value, ast.Name) and c.func.value.id in ("self", "cls") \
                     and c.func.attr in methods and c.func.attr.startswith("_") and not c.func.attr.startswith("__"):
                 h = methods[c.func.attr]
-            if h is not None and depth < 2 and h is not func_node and fits(h, c):
+            if h is not None and depth < 2 and h is not func_node and as_value and fits(h, c, True):
+                pre, value = expand(h, c, True)
+                st.value = value
+                out += block(pre, depth + 1) + [st]
+            elif h is not None and depth < 2 and h is not func_node and not as_value and fits(h, c):
                 out += block(expand(h, c), depth + 1)
             else:
                 out.append(st)
